@@ -66,7 +66,9 @@ func (f *WithOutputToString) Call(s *slip.Scope, args slip.List, depth int) slip
 	s2.Let(sym, &stream)
 	args = args[1:]
 	for i := range args {
-		_ = slip.EvalArg(s2, args, i, d2)
+		if exit := slip.EvalArg(s2, args, i, d2); slip.IsExit(exit) {
+			return exit
+		}
 	}
 	return slip.String(out.String())
 }
